@@ -34,7 +34,7 @@ META = {
              "bucket) tuple.  'evaluations' counts finder operations executed (several per case); distinctness is counted per case."),
     "assumptions": [
         "partial: the history, re-run, fresh-process and fault-isolation clauses are decided by the simulated histories; the row invariants are evaluated on the catalogues those histories produce, i.e. on sampled inputs",
-        "noise/background are forced (rms=noise level, bkg=0) so that catalogues do not depend on BANE",
+        "noise/background are forced numbers (rms=noise level, bkg=0) or constant map files, so that catalogues do not depend on BANE",
         "rows flagged WCSERR are exempt from the range checks",
         "fit faults are limited to the failure modes the code itself names",
         "fresh-process reproducibility is decided by the runner's self-test: case digests (catalogue rows + tables) recomputed in a fresh interpreter under another PYTHONHASHSEED",
@@ -65,7 +65,7 @@ def _blind(path, spec, o, finder=None):
     sf = fm._state["sf"]
     f = finder or sf.SourceFinder()
     srcs = f.find_sources_in_image(path, cube_index=(1 if spec.get("cube") else None),
-                                   rms=spec["noise"], bkg=0.0, cores=1, innerclip=o["innerclip"],
+                                   cores=1, innerclip=o["innerclip"], **fm.finder_kwargs(spec, path),
                                    outerclip=o["outerclip"], max_summits=o["max_summits"], doislandflux=o["islands"],
                                    nopositive=o["nopositive"], nonegative=o["nonegative"], docov=o["docov"])
     return f, srcs
@@ -75,7 +75,7 @@ def _prior(path, spec, cat, p, finder=None):
     sf = fm._state["sf"]
     f = finder or sf.SourceFinder()
     srcs = f.priorized_fit_islands(path, catalogue=copy.deepcopy(cat), cube_index=(1 if spec.get("cube") else None),
-                                   rms=spec["noise"], bkg=0.0, cores=1,
+                                   cores=1, **fm.finder_kwargs(spec, path),
                                    stage=p["stage"], doregroup=p["regroup"], docov=p["docov"], ratio=p["ratio"])
     return f, srcs
 
@@ -269,7 +269,7 @@ def _prior_from_file(ch, out, models, spec, path, comps, o, twin2, history):
 
 def _case_body(ch, out, models, spec, path, o, variant, twin, twin2=None):
     history = ["blind"]
-    out.sample = {"image": {k: spec[k] for k in ("layout", "rows", "cols", "crval", "proj", "cd_matrix", "beam_ratio", "bpa", "float64", "cube", "pix_arcsec", "beam_pix", "noise")},
+    out.sample = {"image": {k: spec[k] for k in ("layout", "rows", "cols", "crval", "proj", "cd_matrix", "beam_ratio", "bpa", "float64", "cube", "beam_param", "aux_files", "pix_arcsec", "beam_pix", "noise")},
                   "nsources_injected": len(spec["sources"]), "options": dict(o), "history": history}
 
     counter = fm.CallCounter()
